@@ -42,17 +42,16 @@ ReachAnswer(x) ==
          accd |-> d.acc, altd |-> d.alt, allowedd |-> d.allowed]]]
 
 \* `+p:` -- is the observed path x.obs the path of a witnessing derivation of the deciding
-\* alternative?  The deviation sets are only evaluated when the documented semantics says no.
+\* alternative?  x.alt / x.altd are the deciding alternatives this module computed for the
+\* case in its "reach" answer (documented / StarMarksStart).  The deviation sets are only
+\* evaluated when the documented semantics says no.
 PathAnswer(x) ==
-  LET Dec(rdev) == Deciding(Mk(x, x.start, rdev, FALSE, <<>>))
-      j0  == Dec({})
-      j1  == IF DevMatters(x) THEN Dec(SMS) ELSE j0
-      W(j, dev) == j # 0 /\ PathWitness(Mk(x, x.start, dev, TRUE, x.obs), j)
-      doc == W(j0, {})
+  LET W(j, dev) == j # 0 /\ PathWitness(Mk(x, x.start, dev, TRUE, x.obs), j)
+      doc == W(x.alt, {})
   IN [id |-> x.id, doc |-> doc,
-      sms  |-> ~doc /\ W(j1, SMS),
-      pln  |-> ~doc /\ W(j0, PLN),
-      both |-> ~doc /\ W(j1, SMS \cup PLN)]
+      sms  |-> ~doc /\ W(x.altd, SMS),
+      pln  |-> ~doc /\ W(x.alt, PLN),
+      both |-> ~doc /\ W(x.altd, SMS \cup PLN)]
 
 Answer(x) == IF x.q = "path" THEN PathAnswer(x) ELSE ReachAnswer(x)
 
